@@ -7,7 +7,7 @@ if ! git diff --quiet; then echo "/repo dirty, refusing"; exit 2; fi
 git apply "$P" || { echo "patch does not apply"; exit 2; }
 for id in "$@"; do
   echo "== $id"
-  (cd /verif && ./check "$id" --tier quick 2>&1 | head -8)
+  (cd /verif && VERIF_EVIDENCE_DIR=/verif/work/mutant-evidence ./check "$id" --tier quick 2>&1 | head -8)
   echo "exit=$?"
 done
 git -C /repo checkout -- .
